@@ -62,7 +62,7 @@ func C12(tier string) {
 	r.NotExhaustive()
 	n := 32
 	if tier == "thorough" {
-		n = 64
+		n = 128
 	}
 	var whites []ciexyy.Color
 	for i := 0; i < n; i++ {
